@@ -125,7 +125,9 @@ def query_ops(L, r):
     ops = [["get", r.choice([0, n // 2, max(n - 1, 0), n, n + 3])], ["count"], ["list"],
            ["take", r.choice([0, 1, n // 2, n, n + 1])],
            ["contains", r.choice(ts)], ["between", r.choice(ts), r.choice(ts), r.random() < 0.5],
-           ["before", r.choice(ts), r.random() < 0.5], ["after", r.choice(ts), r.random() < 0.5]]
+           ["before", r.choice(ts), r.random() < 0.5], ["after", r.choice(ts), r.random() < 0.5],
+           ["sliceto", r.choice([0, 1, n // 2, 10, n, n + 2])], ["negidx", r.choice([0, 1, n // 2, max(n - 1, 0), n])],
+           ["xafter", r.choice(ts), r.choice([None, 0, 1, 2, n // 2, n, n + 1, -1]), r.random() < 0.5]]
     return ops
 
 
@@ -237,6 +239,8 @@ def check_histories(o, tier, r, verdict, stats, samples, t_end):
                                    "exception": repr(ex)[:300]})
                 continue
             stats["histories"] += 1
+            for op in ops:
+                stats["ops_hist"][op[0]] = stats["ops_hist"].get(op[0], 0) + 1
             stats["hist_family"][fam] = stats["hist_family"].get(fam, 0) + 1
             stats["hist_len"][str(n)] = stats["hist_len"].get(str(n), 0) + 1
             if n >= 1 and len(set(t for (k, t) in h if k == 1)) >= 2:
@@ -438,6 +442,8 @@ def check_threads(o, tier, r, verdict, stats, samples, t_end):
 def one_thread_case(o, recipe, L, ops, plan, fam, verdict, stats, samples, r=None, raises=False):
     run = run_schedule(recipe, ops, plan)
     stats["schedules"] += 1
+    for op in ops:
+        stats["ops_hist_threads"][op[0]] = stats["ops_hist_threads"].get(op[0], 0) + 1
     stats["leaked_threads"] = stats.get("leaked_threads", 0) + run.leaked
     stats["sched_family"][fam] = stats["sched_family"].get(fam, 0) + 1
     stats["steps"] += len(run.log)
@@ -582,7 +588,7 @@ def main():
     stats = {"histories": 0, "hist_family": {}, "hist_len": {}, "hist_impl_vs_spec": 0, "hist_impl_vs_model": 0,
              "schedules": 0, "sched_family": {}, "steps": 0, "blocked_steps": 0, "thread_problems": 0,
              "thread_impl_vs_spec": 0, "thread_impl_vs_model": 0, "traces_validated": 0, "traces_rejected": 0,
-             "raising_histories": 0, "raising_cached_vs_uncached": 0, "raising_impl_vs_model": 0,
+             "ops_hist": {}, "ops_hist_threads": {}, "raising_histories": 0, "raising_cached_vs_uncached": 0, "raising_impl_vs_model": 0,
              "nontrivial": set()}
     samples = []
     if os.path.exists(os.path.join(C.BIN, "oracle_" + AREA)):
@@ -624,7 +630,7 @@ def main():
                 "{0,1,9,10,11,20,21,30}: all interleavings of next() of 2 iterators for n<=3 (quick) / 4 and of 3 "
                 "iterators for n<=1, phase families a^p b^q a* b* with p,q around multiples of 10 and the second "
                 "iterator created before/after, strict alternation, random histories of 2-4 lazily created iterators "
-                "mixed with list/take/index/count/contains/between/before/after queries; (ii) real threads under the "
+                "mixed with list/take/index/negative index/slice [:k]/count/contains/between/before/after/xafter queries; (ii) real threads under the "
                 "line-level scheduler: 2 threads with one pre-emption at every line offset, two pre-emptions on a complete (a,b) grid for the shortest rules and sampled "
                 "for lengths {0,1,9,10,11,20,21}, random plans for 2-4 threads mixing iterators and queries. distinct = (rule, ops, history or executed "
                 "schedule); non-trivial = history with >=2 iterators advancing on a non-empty rule, or schedule with "
@@ -635,6 +641,8 @@ def main():
         "samples": samples[:12],
         "input_distribution": {"histories": stats["histories"], "histories_by_family": stats["hist_family"],
                                "histories_by_rule_length": stats["hist_len"],
+                               "operations_in_histories": stats["ops_hist"],
+                               "operations_in_thread_schedules": stats["ops_hist_threads"],
                                "schedules": stats["schedules"], "schedules_by_family": stats["sched_family"],
                                "scheduled_line_steps": stats["steps"],
                                "steps_observed_blocked_on_the_lock": stats["blocked_steps"]},
